@@ -82,3 +82,18 @@ Example C06_premises_inhabited :
   exists r d', load_dets apply_any sample_defs (CMany [[115]; [116]])%N = Ok r /\ dom_dets r = true /\
                dets_plain r = Ok d'.
 Proof. exact premises_inhabited. Qed.
+
+(* the merge path (two items written under the same key, e.g. through modifier aliases or after two
+   fields were mapped to one): two single values become one key|all item holding both values ... *)
+Theorem C06_merge_two_singles :
+  forall k a b, infixb s_neq k = false -> infixb s_all k = false ->
+    merge_all [] [(k, MOne a); (k, MOne b)] = Ok [((k ++ s_all)%list, MMany [a; b])].
+Proof. exact merge_two_singles. Qed.
+Print Assumptions C06_merge_two_singles.
+
+(* ... and negated items are never merged (not a and not b is not not (a and b)): Sigma error *)
+Theorem C06_merge_negated_refused :
+  forall k v1 v2 md, infixb s_neq k = true -> md_get k md = Some v1 ->
+    merge_step md (k, v2) = SigmaErr E_Value.
+Proof. exact merge_neq_refused. Qed.
+Print Assumptions C06_merge_negated_refused.
